@@ -54,9 +54,11 @@ Definition digits_of (s : bytes) : bytes := fst (span is_digit s).
 Definition q_literal (s : bytes) : option (Z * Z) :=
   let frac (q : Z) (s' : bytes) :=
     match s' with
-    | 46 :: s'' => let ds := digits_of s'' in
-                   Some ((q * 10 ^ Z.of_nat (length ds) + dec_num ds 0)%Z, (10 ^ Z.of_nat (length ds))%Z)
-    | _ => Some (q, 1%Z)
+    | c :: s'' => if Nat.eqb c 46
+                  then let ds := digits_of s'' in
+                       Some ((q * 10 ^ Z.of_nat (length ds) + dec_num ds 0)%Z, (10 ^ Z.of_nat (length ds))%Z)
+                  else Some (q, 1%Z)
+    | [] => Some (q, 1%Z)
     end in
   match s with
   | [] => None
